@@ -11,13 +11,13 @@
 #define KIND ND_ADD
 #endif
 
-Node *gk[3]; int64_t gv[4]; Node *verif_root; _Bool verif_root_defined;
+Node *gk[3]; int64_t gv[4]; Node *verif_root; _Bool verif_root_defined; _Bool verif_root_any;   /* any: the value is unspecified (undefined operation), only 'no trap' is required */
 int64_t verif_val(Node *n) { return n == gk[0] ? gv[0] : n == gk[1] ? gv[1] : n == gk[2] ? gv[2] : gv[3]; }
 
 static int64_t eval2(Node *node, char ***label)
 __CPROVER_requires(node != 0 && node->ty != 0 && label == 0)
 __CPROVER_assigns()
-__CPROVER_ensures(__CPROVER_return_value == verif_val(node))
+__CPROVER_ensures(__CPROVER_return_value == verif_val(node) || (node == verif_root && verif_root_any))
 __CPROVER_ensures(node != verif_root || verif_root_defined)   /* undefined evaluation never returns normally (it is diagnosed) */
 ;
 
@@ -71,6 +71,9 @@ void harness(void) {
   n.kind = KIND;
   gk[0] = &a; gk[1] = &b; gk[2] = &c; gv[0] = va; gv[1] = vb; gv[2] = vc;
   ASSUME(spec_canon(st(a.ty), va) && spec_canon(st(b.ty), vb) && spec_canon(st(c.ty), vc));
+#ifdef RHS_M1
+  ASSUME(vb == -1);      /* the one divisor for which the host's own division can trap besides 0: x / -1 and x % -1 with x == INT64_MIN */
+#endif
 #ifdef BOUND_BITS
   ASSUME(-(1L << BOUND_BITS) < va && va < (1L << BOUND_BITS) && -(1L << BOUND_BITS) < vb && vb < (1L << BOUND_BITS));
 #endif
@@ -129,14 +132,18 @@ void harness(void) {
   _Bool divzero = (KIND == ND_DIV || KIND == ND_MOD) && vb == 0;
 #ifdef TRAP_CASE
   ASSUME(!defined && !divzero);
+  verif_root_any = 1;
 #else
+  verif_root_any = 0;
   ASSUME(defined || divzero);
 #endif
   verif_root_defined = !divzero;
 #ifdef DIVKIND
   if (divzero) { REACH("zero divisor explored"); }
 #endif
+#ifndef TRAP_CASE
   if (defined) { REACH("defined operand values explored"); }
+#endif
 #if defined(VERIF_NATIVE) || defined(LITERAL)
   if (!defined) NOTE("operands for which C11 leaves the result undefined: a diagnostic (exit) is required, a trap is a failure");
   int64_t got = eval2(&n, 0);
